@@ -126,3 +126,24 @@ pub fn describe(t: &Tables) -> String {
     for c in 0..NCHK { if t.chk[c] != [true; NPOS] { s += &format!(" check{}:{:?}", c, &t.chk[c][..=t.n]); } }
     s
 }
+
+#[cfg(kani)]
+mod kani_proofs {
+    use super::*;
+    use super::ops::*;
+    /// Kani bound on the input length (the native enumeration goes further)
+    pub const KANI_N: usize = 2;
+    fn any_tables() -> Tables {
+        let mut t = Tables::zero();
+        t.n = kani::any();
+        kani::assume(t.n <= MAXN);
+        let mut i = 0;
+        while i < MAXN { t.sym[i] = kani::any(); i += 1; }
+        let mut o = 0;
+        while o < NOPS { let mut p = 0; while p < NPOS { t.op[o][p] = kani::any(); p += 1; } o += 1; }
+        let mut c = 0;
+        while c < NCHK { let mut p = 0; while p < NPOS { t.chk[c][p] = kani::any(); p += 1; } c += 1; }
+        t
+    }
+    include!(concat!(env!("SCHEMA_GEN_DIR"), "/kani_harnesses.rs"));
+}
